@@ -578,14 +578,19 @@ def validAuthenticate (msg : Bytes) (flags : UInt32) (lm nt domain user workstat
 /-- MS-NLMP 2.2.1.2 CHALLENGE_MESSAGE built from its content; `gap0 gap1 gap2` are arbitrary bytes a
     server may leave before, between and after the two payload fields.  The Version field is present
     (8 bytes) and meaningful only under NTLMSSP_NEGOTIATE_VERSION. -/
-def buildChallenge (c : Challenge) (gap0 gap1 gap2 : Bytes) : Bytes :=
+def buildChallengeMax (c : Challenge) (gap0 gap1 gap2 : Bytes) (tnMax tiMax : Nat) : Bytes :=
   let tnOff := 56 + gap0.length
   let tiOff := tnOff + c.targetName.length + gap1.length
   signature ++ natLe 4 2 ++
-  natLe 2 c.targetName.length ++ natLe 2 c.targetName.length ++ natLe 4 tnOff ++
+  natLe 2 c.targetName.length ++ natLe 2 tnMax ++ natLe 4 tnOff ++
   natLe 4 c.flags.toNat ++ c.serverChallenge ++ c.reserved ++
-  natLe 2 c.targetInfo.length ++ natLe 2 c.targetInfo.length ++ natLe 4 tiOff ++
+  natLe 2 c.targetInfo.length ++ natLe 2 tiMax ++ natLe 4 tiOff ++
   c.version ++ gap0 ++ c.targetName ++ gap1 ++ c.targetInfo ++ gap2
+
+/-- the usual sender: each `MaxLen` "SHOULD be set to the value of" its `Len` (2.2.1.2); a receiver MUST ignore it,
+    which is why `buildChallengeMax` leaves both free -/
+def buildChallenge (c : Challenge) (gap0 gap1 gap2 : Bytes) : Bytes :=
+  buildChallengeMax c gap0 gap1 gap2 c.targetName.length c.targetInfo.length
 
 /-- what a CHALLENGE can carry: 8-byte challenge / reserved / version, fields below 64 KiB, offsets
     below 4 GiB, and an all-zero Version unless NTLMSSP_NEGOTIATE_VERSION is set -/
